@@ -36,6 +36,10 @@ package selectorvalidator
 //@ func github.com/ipld/go-ipld-prime/traversal/selector.RecursionLimitNone
 //@   assumed
 //@   ensures limNone(result)
+//@ -- (a depth-limited exploration silently stops exploring below its limit, go-ipld-prime ExploreRecursive.Explore)
+//@ func github.com/ipld/go-ipld-prime/traversal/selector.RecursionLimitDepth
+//@   assumed
+//@   ensures !limNone(result)
 //@ func github.com/ipld/go-ipld-prime/traversal/selector/builder.ExploreFieldsSpecBuilder.Insert
 //@   assumed
 //@   modifies fIns, fDom
